@@ -125,7 +125,15 @@ fn mutate(rng: &mut Rng, base: &str, stack: bool) -> (String, &'static str) {
     let mut lines = lines_of(base);
     let n = lines.len().max(1);
     let at = rng.usize_below(n);
-    match rng.below(12) {
+    match rng.below(13) {
+        12 => {
+            // A big program: many labels in one assembly (tables grow, then must still be reset)
+            let n = 100 + rng.usize_below(160);
+            for i in 0..n {
+                lines.push(format!("Big_{} .fill x{:04X}", i, i));
+            }
+            (lines.join("\n") + "\n", "many_labels")
+        }
         0 => {
             // Lexer failure in the middle
             let bad = *rng.pick(&["@@@", "x10000", "#99999", ".bogus", "\"unterminated", "add r1, r1, $3"]);
@@ -426,6 +434,7 @@ impl Check for C19 {
             "fault:undefined_label",
             "fault:emission_only_error",
             "fault:shifted_labels",
+            "fault:many_labels",
             "probe:failed_assembly_in_history",
             "probe:success_right_after_failure",
             "probe:torn_prefix_assembled_ok",
